@@ -679,6 +679,9 @@ def run_subprocess(env, S, records, ctxinfo, filename, workdir, fail, stats):
     p = subprocess.run([sys.executable, script, inp], stdout=subprocess.PIPE, stderr=subprocess.PIPE, timeout=120)
     os.unlink(inp)
     stats['subprocess_runs'] = stats.get('subprocess_runs', 0) + 1
+    if p.returncode == 3:
+        raise RuntimeError('fresh process could not rebuild the model (harness problem, not an unpickling result): %s'
+                           % p.stderr.decode('utf-8', 'replace')[-1500:])
     if p.returncode != 0:
         fail('sub_error', 'unpickling in a fresh process failed: %s' % p.stderr.decode('utf-8', 'replace')[-1500:])
         return
@@ -995,7 +998,7 @@ def run(ctx):
                  sample={'spec': case['spec'], 'objects': sum(len(x) for x in case['objs']), 'mods': case['mods'],
                          'between': case['between'], 'jobs': case['plan']['jobs']})
     try:
-        ctx.run_test(t, dict(case=cases()), max_examples=ctx.scale(130, 700), name='cases')
+        ctx.run_test(t, dict(case=cases()), max_examples=ctx.scale(130, 500), name='cases')
     finally:
         for k, v in stats.items():
             ctx.extra[k] = ctx.extra.get(k, 0) + v
